@@ -555,4 +555,85 @@ only for the regression counterexample. -/
 def writeOpsInPlace (bytes : Bytes) : List FsOp :=
   [.createTrunc .main, .write .main bytes, .close .main]
 
+
+/-! ## `RetainManager::save_snapshot`: change detection with `PartialEq` -/
+
+/-- IEEE-754 `==` on `f32` bit patterns (what the derived `PartialEq` of `Value::Real` uses):
+NaN is unequal to everything, `+0.0 == -0.0`. -/
+def f32Eq (a b : UInt32) : Bool :=
+  let nan (x : UInt32) : Bool := (x &&& 0x7F800000) == 0x7F800000 && (x &&& 0x007FFFFF) != 0
+  if nan a || nan b then false
+  else a == b || ((a &&& 0x7FFFFFFF) == 0 && (b &&& 0x7FFFFFFF) == 0)
+
+/-- IEEE-754 `==` on `f64` bit patterns. -/
+def f64Eq (a b : UInt64) : Bool :=
+  let nan (x : UInt64) : Bool :=
+    (x &&& 0x7FF0000000000000) == 0x7FF0000000000000 && (x &&& 0x000FFFFFFFFFFFFF) != 0
+  if nan a || nan b then false
+  else a == b || ((a &&& 0x7FFFFFFFFFFFFFFF) == 0 && (b &&& 0x7FFFFFFFFFFFFFFF) == 0)
+
+def RFields.lookup (k : Bytes) : RFields → Option RValue
+  | .nil => none
+  | .cons n v t => if n == k then some v else t.lookup k
+
+mutual
+/-- The derived `PartialEq` of `Value` (floats by IEEE `==`, `IndexMap` by content regardless of
+order).  `Reference`/`Instance` payloads are not modelled; a stored snapshot never holds them. -/
+def valueEq : RValue → RValue → Bool
+  | .real a, .real b => f32Eq a b
+  | .lreal a, .lreal b => f64Eq a b
+  | .array d1 e1, .array d2 e2 => decide (d1 = d2) && valuesEq e1 e2
+  | .struct t1 f1, .struct t2 f2 =>
+    decide (t1 = t2) && decide (f1.length = f2.length) && fieldsSubEq f1 f2
+  | .real _, _ => false
+  | .lreal _, _ => false
+  | .array _ _, _ => false
+  | .struct _ _, _ => false
+  | a, b => decide (a = b)
+/-- `Vec<Value> == Vec<Value>`. -/
+def valuesEq : RValues → RValues → Bool
+  | .nil, .nil => true
+  | .cons a t, .cons b u => valueEq a b && valuesEq t u
+  | _, _ => false
+/-- `self.iter().all(|(k, v)| other.get(k).map_or(false, |w| v == w))` of `IndexMap::eq`. -/
+def fieldsSubEq : RFields → RFields → Bool
+  | .nil, _ => true
+  | .cons k v t, other =>
+    (match other.lookup k with
+     | some w => valueEq v w
+     | none => false) && fieldsSubEq t other
+end
+
+/-- `RetainSnapshot == RetainSnapshot` (`IndexMap::eq`: same length and same content). -/
+def snapshotEq (a b : Snapshot) : Bool := decide (a.length = b.length) && fieldsSubEq a b
+
+/-- The part of `RetainManager` that decides what reaches the file. -/
+structure Mgr where
+  last : Option Snapshot   -- `last_snapshot`
+  disk : Disk
+  deriving Repr, DecidableEq
+
+/-- `self.last_snapshot.as_ref() == Some(&snapshot)`. -/
+def Mgr.unchanged (m : Mgr) (s : Snapshot) : Bool :=
+  match m.last with
+  | some l => snapshotEq l s
+  | none => false
+
+/-- `RetainManager::save_snapshot(snapshot, now)` with a `FileRetainStore` (a completed save; the
+`dirty`/`last_save` bookkeeping does not influence the file). -/
+def Mgr.save (m : Mgr) (s : Snapshot) : Mgr × Except Err Unit :=
+  if m.unchanged s then (m, .ok ())
+  else
+    match encodeSnapshot s with
+    | .error e => (m, .error e)
+    | .ok bytes =>
+      ({ last := some s, disk := runOps m.disk (writeOps bytes) (writeOps bytes).length }, .ok ())
+
+/-- Guard of the partial theorem: the change detection does not mistake `s` for a remembered
+snapshot that differs from it (it can: `PartialEq` identifies `+0.0` and `-0.0`). -/
+def Mgr.saveVisible (m : Mgr) (s : Snapshot) : Bool :=
+  match m.last with
+  | none => true
+  | some l => !snapshotEq l s || decide (l = s)
+
 end TrustVerif.C10
